@@ -193,6 +193,21 @@ func runOrigin(c J, emit func(J)) {
 					st2 = "residues differ"
 				}
 				ev["slow"] = st2
+				// the writer leaves the ORIGIN section out of a 0 bp record; the empty block (header line, no sequence
+				// line) is still a block of the layout and both reader paths must take it
+				if n == 0 && !strings.Contains(text, "\nORIGIN") && strings.HasSuffix(text, "//\n") {
+					withOrigin := text[:len(text)-3] + "ORIGIN      \n//\n"
+					if st == "ok" {
+						if st3, ln3, _ := scanResidues(withOrigin); st3 != "ok" || ln3 != 0 {
+							ev["fast"] = "empty ORIGIN section: " + st3
+						}
+					}
+					if st2 == "ok" {
+						if st4, ln4, _ := scanResidues(strings.ReplaceAll(withOrigin, "\n", "\r\n")); st4 != "ok" || ln4 != 0 {
+							ev["slow"] = "empty ORIGIN section: " + st4
+						}
+					}
+				}
 				// the scanned record written back before anything decodes its block: the block a reader stores
 				// must be the canonical one (LF and CRLF input)
 				for _, crlf := range []bool{false, true} {
@@ -386,6 +401,11 @@ func runFasta(c J, emit func(J)) {
 			// a DEFINITION of 1..4 lines (the reader keeps the line breaks; FASTA wants one line)
 			deflines := []string{"verif record GBF", "second line of the definition", "third line, complete genome", "fourth"}[:1+n%4]
 			gb.Fields.Definition = strings.Join(deflines, "\n")
+			// every other record carries REFERENCE entries (Slice treats records with and without them differently)
+			if n%2 == 1 {
+				gb.Fields.References = []seqio.Reference{{Number: 1, Info: fmt.Sprintf("(bases 1 to %d)", n), Authors: "A.", Title: "t", Journal: "j"},
+					{Number: 2, Info: fmt.Sprintf("(bases 1 to %d)", maxInt(n/2, 1)), Authors: "B.", Title: "u", Journal: "k"}}
+			}
 			// whole record, an inner slice, empty slices, the full-length slice, one-residue slices
 			for _, w := range [][]int{nil, {n / 3, n - n/4}, {n / 3, n / 3}, {0, 0}, {n, n}, {0, n}, {n - 1, n}, {0, 1}} {
 				var seq gts.Sequence = gb
